@@ -58,7 +58,7 @@ class MidiTrack(list):
         if len(self) == 0:
             messages = ''
         elif len(self) == 1:
-            messages = f'[{self[0]}]'
+            messages = f'[{self[0]!r}]'
         else:
             messages = '[\n  {}]'.format(',\n  '.join(repr(m) for m in self))
         return f'{self.__class__.__name__}({messages})'
